@@ -173,4 +173,46 @@ theorem never_stops_unasked (f : SFacts) (T : Nat) : ∀ (evs : List Ev) (s : St
     · apply ih _ _ _ _ hrest <;> simp [step, poll, h1, h2, h3]
     · apply ih _ _ _ _ hrest <;> simp [step, poll, h1, h2, h3]
 
+
+/-! ### future links are as good as next links -/
+
+/-- for a stream paginator a chain of pages linked by `next` and `future` links in any mix is iterated exactly as
+    the same chain linked by `next` links only (same answer, same page, same position, same pages still to come) -/
+theorem stream_eq_flat : ∀ (rest : List SPg) (cur : SPg) (pos fuel : Nat), rest.length < fuel →
+    streamHasNext fuel cur pos rest = flatHasNext cur pos rest := by
+  intro rest
+  induction rest with
+  | nil =>
+    intro cur pos fuel hf
+    cases fuel with
+    | zero => omega
+    | succ f =>
+      by_cases hp : pos < cur.items.length
+      · simp [streamHasNext, flatHasNext, absHasNext, hp]
+      · cases hl : cur.link <;> simp [streamHasNext, flatHasNext, absHasNext, hp, hl]
+  | cons p r ih =>
+    intro cur pos fuel hf
+    cases fuel with
+    | zero => omega
+    | succ f =>
+      by_cases hp : pos < cur.items.length
+      · simp [streamHasNext, flatHasNext, absHasNext, hp]
+      · cases hl : cur.link with
+        | none => simp [streamHasNext, flatHasNext, absHasNext, hp, hl]
+        | next =>
+          -- the embedded paginator moves on by itself: same fuel
+          have h1 : absHasNext cur pos (p :: r) = absHasNext p 0 r := by simp [absHasNext, hp, hl]
+          have h2 : streamHasNext (f + 1) cur pos (p :: r) = streamHasNext (f + 1) p 0 r := by
+            simp only [streamHasNext, h1]
+          have h3 : flatHasNext cur pos (p :: r) = flatHasNext p 0 r := by simp [flatHasNext, hp, hl]
+          rw [h2, h3]
+          exact ih p 0 (f + 1) (by simp at hf; omega)
+        | future =>
+          have h1 : absHasNext cur pos (p :: r) = (false, cur, pos, p :: r) := by simp [absHasNext, hp, hl]
+          have h3 : flatHasNext cur pos (p :: r) = flatHasNext p 0 r := by simp [flatHasNext, hp, hl]
+          rw [h3]
+          simp only [streamHasNext, h1, hl]
+          simp
+          exact ih p 0 f (by simp at hf; omega)
+
 end GoUtils.PageStream
